@@ -39,6 +39,7 @@ ERRORS = [("cannot copy directories without --recursive", "E_NEEDR"),
           ("No such file or directory", "E_MISSING"),
           # the gateway's own words for a file addressed with a trailing slash / for ALIAS:/ (an empty path component)
           ("Files have no children named ''", "E_TGTSLASH"),
+          ("Files have no children named", "E_MISSING"),       # a source path that leads through a file
           ("does not allow empty pathname components", "E_EMPTYNAME")]
 
 
@@ -89,7 +90,7 @@ class GridBase:
     """The grid tree of one world, built once per process through the web API; every row gets the share files of that
     moment back (and the RSA key pool at its position of that moment) and a fresh gateway (new _Client, empty node cache)."""
     def __init__(self, world):
-        self.grid = Grid(num_servers=2, k=1, n=2, happy=1, max_segment_size=64, seed=0)
+        self.grid = Grid(workdir=tempfile.mkdtemp(prefix="grid_", dir=BASE), num_servers=2, k=1, n=2, happy=1, max_segment_size=64, seed=0)
         self.nclients = 0
         self.w = self.gateway()
         self.caps, self.isdir, self.immcap, self.mut, self.content = {}, {}, {}, {}, {}
@@ -130,6 +131,13 @@ class GridBase:
         w.client._key_generator = self.grid.keypool
         w.client.nodemaker.key_generator = self.grid.keypool
         return w
+
+    def close(self):
+        try:
+            self.w.client.stopService()
+        except Exception:
+            pass
+        shutil.rmtree(self.grid.basedir, ignore_errors=True)
 
     def fresh(self):
         if self.dirty:
@@ -179,8 +187,11 @@ class Case:
 
     def build_grid(self):
         if self.wname not in GRIDS:
+            if len(GRIDS) >= 12:        # the enumerated small worlds: keep the most recent ones
+                old = next(iter(GRIDS))
+                GRIDS.pop(old).close()
             GRIDS[self.wname] = GridBase(self.world)
-        gb = GRIDS[self.wname]
+        gb = GRIDS[self.wname] = GRIDS.pop(self.wname)
         self.w = gb.fresh()
         self.rootcap, self.caps, self.isdir = gb.rootcap, gb.caps, gb.isdir
         self.immcap, self.mut = dict(gb.immcap), dict(gb.mut)
